@@ -25,6 +25,7 @@ res=[]
 for line in log:
     h,msg=line.split(' ',1)
     if not msg.startswith('fix:'): continue
+    if len(sys.argv)>1 and h not in sys.argv[1:]: continue
     before=dump(h+'^'); after=dump(h)
     fixed=[k for k in before if k not in after]
     new=[k for k in after if k not in before]
